@@ -118,8 +118,11 @@ TEXT = {
             "chain of any depth, leaves the whole store unchanged (C14_unchanged, C14_unchanged_on_chain); the constructor "
             "of every type accepts exactly the arguments denoting a valid value and builds a backing representing it "
             "(C14_constructor_sound / _rejects / _accepts_iff, all types by induction); each listed violation class (out-of-range / other-width integer, wrong length, over "
-            "limit, index out of bounds, pop on empty, append to full, invalid selector) is rejected by the model. Tie: "
-            "histories with ~40% invalid commands; model-free oracle 'raised => every held view unchanged'.",
+            "limit, index out of bounds, pop on empty, append to full, invalid selector) is rejected by the model; slice assignment "
+            "view[a:b] = values through any usable held list / vector view is ALL OR NOTHING (C14_slice_all_or_nothing: fails "
+            "leaving the whole store as it was, or every element assignment succeeds — C14_element_set_progress — and every held "
+            "view represents its updated value). Tie: "
+            "histories with ~40% invalid commands, slice assignments at top level and through child views; model-free oracle 'raised => every held view unchanged'.",
             "Coq proof on the store model + correspondence", "5 (C14)"),
     "C15": ("Theorems: indexing a contents tree that represents ns returns the i-th represented node for every i (CRep_get, "
             "all depths, any zero summaries); len() / [i] of list views present the represented elements in order; == is "
